@@ -187,10 +187,19 @@ func (w *WAL) Read() ([]types.Entry, error) {
 	var entries []types.Entry
 	reader := bytes.NewReader(buf.Bytes())
 	for reader.Len() > 0 {
+		// a crash can tear the last record (its write was never acknowledged):
+		// an incomplete length or body at the tail ends the log
+		if reader.Len() < 8 {
+			break
+		}
+
 		// data length
 		var n int64
 		if err = binary.Read(reader, binary.LittleEndian, &n); err != nil {
 			return nil, err
+		}
+		if n > int64(reader.Len()) {
+			break
 		}
 
 		// data body
